@@ -136,6 +136,11 @@ class Context(object):
                rule=self.rule, samples=self.samples[:5],
                exhaustive=self.exhaustive, models=self.models,
                known_findings_hit=self.known_hits)
+    if self.violations:
+      sc = {}
+      for sig, _ in self.violations:
+        sc[canon(sig)] = sc.get(canon(sig), 0) + 1
+      cov["violation_signatures"] = sc
     cov.update(self.notes)
     ev = dict(property_id=self.pid, tier=self.tier, seed=self.seed,
               level=self.level, coverage=cov, assumptions=self.assumptions,
